@@ -74,6 +74,57 @@ theorem length_le_flatten_of_mem {β : Type} : ∀ (part : List (List β)) (b : 
     · omega
     · have := length_le_flatten_of_mem cs b h; omega
 
+/-- the blocks of the reference partition hold records of the history, in order: they are a prefix
+of the encodings (what is missing is what is still pending) -/
+theorem part_flatten_prefix (bs : Nat) (ops : List EncOp) :
+    (specPart bs ops []).1.flatten <+: encodings ops := by
+  have := C09.spec_preserves bs ops []
+  simp only [List.nil_append] at this
+  exact ⟨_, this⟩
+
+/-- **What the writer wrote is a valid file** (in the reader's vocabulary), for *every* history
+`ops`, ended by a `Flush` or not: the header followed by the frames of the blocks of the reference
+partition `(specPart cfg.blockSize ops []).1` — records still pending at the end of `ops` are simply
+not in the file. This is the construction both `write_then_read` and the truncation / crash
+theorems (`C08.written_file_truncation`, `C16.crash_consistent`) rest on. -/
+theorem written_valid (cfg : EncCfg) (ops : List EncOp)
+    {X : Ext α} {fuel : Nat} {H : Header} {sel : CodecSel} {rc : RecCodec α}
+    (hh : ValidHeader X fuel cfg.header H sel rc)
+    (hcomp : ∀ x, decompress X sel (cfg.compress x) = .ok x)
+    (hsmall : ∀ blk ∈ (specPart cfg.blockSize ops []).1, (cfg.compress blk.flatten).length ≤ maxLen)
+    (dec : Bytes → α) (hdec : ∀ r ∈ encodings ops, ∀ rest, rc.decode (r ++ rest) = .ok (dec r, rest))
+    (hn : (encodings ops).length < fuel) (hn63 : (encodings ops).length < 2 ^ 63) :
+    ValidFile X fuel cfg.header H sel rc ((specPart cfg.blockSize ops []).1.map (blkOf cfg dec)) := by
+  generalize hpart : (specPart cfg.blockSize ops []).1 = part at hsmall
+  have hpre : part.flatten <+: encodings ops := by
+    rw [← hpart]; exact part_flatten_prefix _ _
+  have hfl : part.flatten.length ≤ (encodings ops).length := hpre.length_le
+  have hne : ∀ b ∈ part, b ≠ [] := by
+    rw [← hpart]; exact C09.spec_nonempty _ _ _
+  have hlen : part.length ≤ (encodings ops).length :=
+    Nat.le_trans (length_le_flatten part hne) hfl
+  have hmem : ∀ b ∈ part, ∀ r ∈ b, r ∈ encodings ops := by
+    intro b hb r hr
+    exact hpre.subset (List.mem_flatten.mpr ⟨b, hb, hr⟩)
+  have hblen : ∀ b ∈ part, b.length ≤ (encodings ops).length := by
+    intro b hb
+    exact Nat.le_trans (length_le_flatten_of_mem part b hb) hfl
+  exact
+    { toValidHeader := hh
+      blocks := by
+        intro b hb
+        obtain ⟨blk, hblk, rfl⟩ := List.mem_map.mp hb
+        refine ⟨?_, ?_, ?_, ?_⟩
+        · rw [blkOf_data]; exact hcomp _
+        · intro ve hve rest
+          simp only [blkOf, List.mem_map] at hve
+          obtain ⟨r, hr, rfl⟩ := hve
+          exact hdec r (hmem blk hblk r hr) rest
+        · exact hsmall blk hblk
+        · have := hblen blk hblk
+          simp only [blkOf, List.length_map]; omega
+      fuel := by simp only [List.length_map]; omega }
+
 /-- **write then read, whole files**: for every history of `Encode`/`Flush` calls ended by a `Flush`,
 every block size, every compressor the reader's decompressor undoes, the bytes the writer accepted
 are read back as exactly the written records, in order, and reading succeeds. `dec r` is the value
@@ -92,37 +143,13 @@ theorem write_then_read (cfg : EncCfg) (ops : List EncOp)
   have hpend : (specPart cfg.blockSize (ops ++ [.flush]) []).2 = [] := C09.spec_flush_drains _ _ _
   rw [hpend] at hcnt hwb
   refine ⟨s', w', hrun, by simpa using hcnt, by simpa using hwb, ?_⟩
-  generalize hpart : (specPart cfg.blockSize (ops ++ [.flush]) []).1 = part at hacc
-  have hflat : part.flatten = encodings ops := by
+  have hv := written_valid cfg (ops ++ [.flush]) hh hcomp hsmall dec
+    (by rw [encodings_append_flush]; exact hdec) (by rw [encodings_append_flush]; exact hn)
+    (by rw [encodings_append_flush]; exact hn63)
+  have hflat : (specPart cfg.blockSize (ops ++ [.flush]) []).1.flatten = encodings ops := by
     have := C09.spec_preserves cfg.blockSize (ops ++ [.flush]) []
-    rw [hpend, hpart, encodings_append_flush] at this
+    rw [hpend, encodings_append_flush] at this
     simpa using this
-  have hne : ∀ b ∈ part, b ≠ [] := by
-    rw [← hpart]; exact C09.spec_nonempty _ _ _
-  have hlen : part.length ≤ (encodings ops).length := by
-    rw [← hflat]; exact length_le_flatten part hne
-  have hmem : ∀ b ∈ part, ∀ r ∈ b, r ∈ encodings ops := by
-    intro b hb r hr
-    rw [← hflat]; exact List.mem_flatten.mpr ⟨b, hb, hr⟩
-  have hblen : ∀ b ∈ part, b.length ≤ (encodings ops).length := by
-    intro b hb
-    rw [← hflat]
-    exact length_le_flatten_of_mem part b hb
-  have hv : ValidFile X fuel cfg.header H sel rc (part.map (blkOf cfg dec)) :=
-    { toValidHeader := hh
-      blocks := by
-        intro b hb
-        obtain ⟨blk, hblk, rfl⟩ := List.mem_map.mp hb
-        refine ⟨?_, ?_, ?_, ?_⟩
-        · rw [blkOf_data]; exact hcomp _
-        · intro ve hve rest
-          simp only [blkOf, List.mem_map] at hve
-          obtain ⟨r, hr, rfl⟩ := hve
-          exact hdec r (hmem blk hblk r hr) rest
-        · exact hsmall blk (by rw [hpart]; exact hblk)
-        · have := hblen blk hblk
-          simp only [blkOf, List.length_map]; omega
-      fuel := by simp only [List.length_map]; omega }
   have := C07.delivers hv cb hcb
   rw [hs, ← frames_eq, allVals_blkOf, hflat] at this
   rw [hacc]; exact this
